@@ -770,6 +770,71 @@ func ckksObtainedScenario(cf ckksConf) engine.Scenario {
 	}}
 }
 
+// serializeScenario (CKKS): encode -> MarshalBinary -> UnmarshalBinary into a pre-allocated plaintext of the other
+// encoding domain (ckks.NewPlaintext defaults to IsBatched=true, full packing, default scale, top level) -> decode:
+// bit-identical to the decoding of the sender's own plaintext.
+func ckksSerializeScenario(cf ckksConf) engine.Scenario {
+	name := "ckks/" + cf.name + "/serialize-into-preallocated"
+	return engine.Scenario{Name: name, Bound: -1, Fn: func(c *engine.Chooser) {
+		w := getCkksWorld(cf)
+		batched := c.Choose(2, "sender-domain") == 1
+		level := []int{w.L, 0}[c.Choose(2, "level")]
+		logSlots := []int{w.maxL, 1}[c.Choose(2, "logSlots")]
+		scale := pow2(30)
+		c.Cover("serialize", fmt.Sprintf("ckks sender-batched=%v", batched))
+		pt := ckks.NewPlaintext(w.p, level)
+		pt.IsBatched = batched
+		pt.Scale = rlwe.NewScale(scale)
+		n := w.N
+		if batched {
+			pt.LogDimensions.Cols = logSlots
+			n = 1 << logSlots
+		}
+		v := make([]float64, n)
+		for j := range v {
+			v[j] = float64(j+1)/8 - 1
+		}
+		w.poison()
+		if err := w.ecd.Encode(v, pt); err != nil {
+			panic(err)
+		}
+		want := make([]float64, n)
+		w.poison()
+		if err := w.ecd.Decode(pt, want); err != nil {
+			panic(err)
+		}
+		data, err := pt.MarshalBinary()
+		if err != nil {
+			failD(c, "C07/ckks/serialize/marshal-error", "%v", err)
+			return
+		}
+		recv := ckks.NewPlaintext(w.p, w.L)
+		recv.IsBatched = !batched
+		if batched {
+			recv.LogDimensions.Cols = 0
+		}
+		dirty(recv.Value, w.p.Q())
+		if err, pan := uni.Try(func() error { return recv.UnmarshalBinary(data) }); err != nil || pan != nil {
+			failD(c, "C07/ckks/serialize/unmarshal-error", "sender batched=%v level=%d: err=%v panic=%v", batched, level, err, pan)
+			return
+		}
+		got := make([]float64, n)
+		w.poison()
+		if err, pan := uni.Try(func() error { return w.ecd.Decode(recv, got) }); err != nil || pan != nil {
+			failD(c, "C07/ckks/serialize/decode-error", "sender batched=%v level=%d: err=%v panic=%v", batched, level, err, pan)
+			return
+		}
+		for j := range want {
+			if got[j] != want[j] {
+				failD(c, "C07/ckks/serialize/value", "sender batched=%v level=%d logSlots=%d -> receiver pre-allocated with IsBatched=%v: entry %d decodes to %v, the sender's plaintext decodes to %v (receiver after UnmarshalBinary: IsBatched=%v LogDimensions=%v)",
+					batched, level, logSlots, !batched, j, got[j], want[j], recv.IsBatched, recv.LogDimensions)
+				return
+			}
+		}
+		c.Outcome(name, batched, level, logSlots)
+	}}
+}
+
 // thresholdScenario: slot domain, constant vectors c*(1,..,1)*dir whose single plaintext coefficient c*scale sits
 // on either side of 2^31, 2^32, 2^53, 2^63, 2^64 and just below Q/2, for every (scale, level) that admits them, full
 // and single-slot packing, every output type, Decode and DecodePublic (via roundTrip).
@@ -1208,6 +1273,9 @@ func ckksScenarios(tier string) []engine.Scenario {
 		if cf.logN <= 5 || tier == "thorough" {
 			scs = append(scs, ckksObtainedScenario(cf))
 		}
+		if cf.logN == 4 || tier == "thorough" {
+			scs = append(scs, ckksSerializeScenario(cf))
+		}
 		scs = append(scs, ckksValueScenario(cf), ckksCoeffScenario(cf), ckksProductScenario(cf), ckksFFTScenario(cf), ckksEmbedScenario(cf))
 	}
 	return scs
@@ -1216,7 +1284,7 @@ func ckksScenarios(tier string) []engine.Scenario {
 func expect(tier string) []string {
 	e := []string{
 		"bgv-domain=batched", "bgv-domain=coeff", "bgv-type=int64", "bgv-type=uint64", "bgv-level=0", "bgv-len=0", "bgv-len=1", "bgv-len=full",
-		"bgv-scale=1", "bgv-scale=t-1", "bgv-scale=(t+1)/2", "bgv-scale=q1 mod t", "bgv-gap=1", "bgv-gap=2", "bgv-gap=4", "bgv-gap=8", "bgv-every-scale=all-units", "bgv-scale-arithmetic=residues-above-2^32", "bgv-every-scale=spread", "ckks-coeff-public=judged-closeness-only", "ckks-obtained=new/arbitrary", "ckks-obtained=copy/arbitrary", "ckks-obtained=copy/float64", "ckks-obtained=copy-of-copy/arbitrary", "ckks-obtained=copy-of-used/arbitrary", "ckks-obtained=used-copy/arbitrary", "bgv-obtained=copy", "bgv-obtained=copy-of-copy", "bgv-obtained=copy-of-used", "ckks-threshold=coeff-domain", "ckks-threshold=2^31-1", "ckks-threshold=2^32+1", "ckks-threshold=2^53+1", "ckks-threshold=2^63-1", "ckks-threshold=2^63+1", "ckks-threshold=2^64-1", "ckks-threshold=2^64+1", "ckks-threshold=0.49*Q/scale",
+		"bgv-scale=1", "bgv-scale=t-1", "bgv-scale=(t+1)/2", "bgv-scale=q1 mod t", "bgv-gap=1", "bgv-gap=2", "bgv-gap=4", "bgv-gap=8", "bgv-every-scale=all-units", "bgv-scale-arithmetic=residues-above-2^32", "bgv-every-scale=spread", "ckks-coeff-public=judged-closeness-only", "serialize=bgv sender-batched=false", "serialize=bgv sender-batched=true", "serialize=ckks sender-batched=false", "serialize=ckks sender-batched=true", "ckks-obtained=new/arbitrary", "ckks-obtained=copy/arbitrary", "ckks-obtained=copy/float64", "ckks-obtained=copy-of-copy/arbitrary", "ckks-obtained=copy-of-used/arbitrary", "ckks-obtained=used-copy/arbitrary", "bgv-obtained=copy", "bgv-obtained=copy-of-copy", "bgv-obtained=copy-of-used", "ckks-threshold=coeff-domain", "ckks-threshold=2^31-1", "ckks-threshold=2^32+1", "ckks-threshold=2^53+1", "ckks-threshold=2^63-1", "ckks-threshold=2^63+1", "ckks-threshold=2^64-1", "ckks-threshold=2^64+1", "ckks-threshold=0.49*Q/scale",
 		"bgv-exhaust=single-slot", "bgv-exhaust=alphabet3", "bgv-product=ringT", "bgv-product=ringQ",
 		"ckks-logn=4", "ckks-logn=5", "ckks-logn=6", "ckks-ring=standard", "ckks-ring=conjugate-invariant", "ckks-path=float64", "ckks-path=arbitrary",
 		"ckks-slots=full", "ckks-slots=1", "ckks-slots=sparse", "ckks-level=0", "ckks-ntt=true", "ckks-ntt=false", "ckks-domain=coeff",
